@@ -149,6 +149,32 @@ fn main() {
             }
             println!("{}", c.to_json().render());
         }
+        Some("enc") => {
+            // debugging aid: dmv enc <hex input> <list spec> <mask>
+            let input = json::unhex(args.get(2).map(|s| s.as_str()).unwrap_or("")).unwrap_or_default();
+            let list = args.get(3).cloned().unwrap_or("default".into());
+            let mask: u8 = args.get(4).and_then(|s| s.parse().ok()).unwrap_or(63);
+            let l = util::list_from_spec(&list).expect("list");
+            let _ = datamatrix::verif::take_planner_stats();
+            let r = ctx::guard(|| datamatrix::data::encode_data(&input, &l, None, util::modes_from_mask(mask), false));
+            let st = datamatrix::verif::take_planner_stats();
+            println!("input  {:?}", util::printable(&input));
+            println!("crate  {:?}", r);
+            println!("stats  {:?}", st);
+            println!("plan   {:?}", ctx::guard(|| datamatrix::data::encodation_plan(&input, &l, util::modes_from_mask(mask))));
+            if let Ok(Ok((cw, _))) = &r {
+                match refimpl::dec::decode(cw) {
+                    Ok(d) => println!("rdec   latches {:?} end {:?} pad {:?} l1 {} l2 {} bytes_ok {}", d.latches, d.end_form, d.pad_start, d.l1_uses, d.l2_uses, d.bytes == input),
+                    Err(e) => println!("rdec   REJECT {}", e),
+                }
+            }
+            let caps = util::caps_from_spec(&list);
+            let o = refimpl::opt::Opts { mask, header: refimpl::enc::Header::None, implicit_pair: true, trailing_254: true };
+            match refimpl::opt::min_cap(&input, &caps, usize::MAX, &o) {
+                Some((c, sc)) => println!("ropt   cap {} {} -> {:?}", c, sc.describe(), refimpl::enc::encode(&input, &sc).map(|x| x.0)),
+                None => println!("ropt   none"),
+            }
+        }
         Some("distinct") => {
             // count the union of sorted u64 key files
             let mut all: Vec<u64> = Vec::new();
